@@ -81,6 +81,17 @@ pub fn string_values() -> Vec<Vec<u8>> {
     v.extend(vec![b'w'; 62]);
     v.extend_from_slice(b"]=]");
     values.push(v);
+    // long bracket candidates containing closers and ending in a half closer "]" "="^j
+    let mut v = vec![b'k'; 61];
+    v.extend_from_slice(b"]]");
+    v.extend_from_slice(b" x]=");
+    values.push(v);
+    let mut v = vec![b'm'; 61];
+    v.extend_from_slice(b"]] and ]=] then ]==");
+    values.push(v);
+    let mut v = b"a\nb\nc\nd\ne\nf\ng ]] closing early ]".to_vec();
+    v.extend_from_slice(b"=");
+    values.push(v);
     values
 }
 
